@@ -7,7 +7,7 @@ set -u
 PATCH="$1"; shift
 HERE="$(cd "$(dirname "$0")/.." && pwd)"
 S="$(mktemp -d /tmp/yarl-mut-XXXXXX)"
-mkdir -p "$S/yarl" "$S/out" && cp /repo/yarl/*.py /repo/yarl/*.pyx /repo/yarl/*.pyi /repo/yarl/py.typed "$S/yarl/" 2>/dev/null
+mkdir -p "$S/out" && rsync -a --exclude="*.so" --exclude="*.c" --exclude="__pycache__" /repo/yarl "$S/"
 ( cd "$S" && git init -q . && git apply --include='yarl/*' "$PATCH" ) || { echo "PATCH DOES NOT APPLY"; rm -rf "$S"; exit 3; }
 for P in "$@"; do
   T0=$(date +%s)
